@@ -182,6 +182,7 @@ func Check() *common.Check {
 		Level: "exploration",
 		// every case is recorded before it runs: a fatal error or a hang of the worker is attributed to it
 		CrashSafe: true,
+		MemLimit:  8 << 30, // the token-limit boundary inputs are trees of a million tokens
 		Rule: fmt.Sprintf("inputs with at least one non-semicolon token: the sqlgen clause/DML/DDL/hole/nesting statements (valid), every single-token deletion, duplication and replacement by 7 hostile tokens of the first 250 (quick) / 1500 (thorough) distinct statements, "+
 			"all scripts of <=3 items over 3 valid + 2 invalid statements and the empty item (stray semicolons), 14 lexically invalid inputs; each through %d entry points compared with gosqlx.Parse (accept/reject, canonical tree, structured error code); "+
 			"all batches of length <=3 over 4 valid + 3 invalid inputs, and every generated statement (once and twice) followed by the deepest nesting a new parser accepts, through ParseMultiple / ValidateMultiple. distinct = distinct input text; non-trivial = every executed case (each runs all entry points)", len(eps)),
@@ -375,6 +376,35 @@ func Check() *common.Check {
 				}
 			}
 			brec(nil)
+			// the token limit, at the boundary: MaxTokens-1 .. MaxTokens+2 tokens (every entry point has its own copy of the
+			// tokenizing loop or calls one of the two)
+			for _, d := range []int{-1, 0, 1, 2} {
+				for _, shape := range []string{"select-list", "select-list-aliased-newline"} {
+					d, shape := d, shape
+					key := fmt.Sprintf("token-limit|%s|%+d", shape, d)
+					e.Do(key, func(c *common.Ctx) {
+						n := tokenizer.MaxTokens + d
+						var sql string
+						if shape == "select-list" {
+							// SELECT 1,1,...,1 : 1 + (2k-1) tokens
+							k := n / 2
+							sql = "SELECT 1" + strings.Repeat(",1", k-1)
+							if n%2 == 1 {
+								sql += " x" // an alias: one more token
+							}
+						} else {
+							k := (n - 1) / 2
+							sql = "SELECT 1 x" + strings.Repeat(",1", k-1)
+							if n%2 == 0 {
+								sql += " y"
+							}
+							sql += "\n"
+						}
+						c.Input(key)
+						compareAll(c, sql, "token-limit:"+shape)
+					})
+				}
+			}
 			// batches at the nesting boundary: every generated statement followed by the deepest nesting a new
 			// parser accepts.  The batch calls reuse one parser, so any state a statement leaves behind (a leaked
 			// nesting level, a stale option) changes the verdict of the boundary query, which the individual calls accept.
